@@ -4,7 +4,7 @@ use crate::{
     fbig::FBig,
     repr::{Context, Repr},
     round::{mode::Zero, Round},
-    utils::{digit_len, split_digits_ref},
+    utils::{digit_len, shr_digits, split_digits_ref},
 };
 use alloc::string::String;
 use core::fmt::{self, Alignment, Display, Formatter, Write};
@@ -298,8 +298,18 @@ impl<const B: Word> Repr<B> {
                 let shift = -diff as usize;
                 let (signif, rem) = split_digits_ref::<B>(&self.significand, shift);
                 let adjust = R::round_fract::<B>(&signif, rem, shift);
-                rounded_signif = signif + adjust;
-                (&rounded_signif, self.exponent - diff)
+                let mut rounded = signif + adjust;
+                let mut exp = self.exponent - diff;
+                // the rounding may carry into one more digit (9.96 -> 10.0), the result is then
+                // a power of the base: drop the new trailing zero so that the number of printed
+                // digits still follows the precision
+                if digit_len::<B>(&rounded) > prec as usize {
+                    let extra = if use_hexadecimal { 4 } else { 1 };
+                    rounded = shr_digits::<B>(&rounded, extra);
+                    exp += extra as isize;
+                }
+                rounded_signif = rounded;
+                (&rounded_signif, exp)
             } else {
                 (&self.significand, self.exponent)
             }
